@@ -47,7 +47,7 @@ class GenProxy:
         self._d = key
         t = CURRENT[0]
         if t is not None:
-            t.entries[key] = ([float(p) for p in params], kind, answers)
+            t.entries.setdefault(key, []).append(([float(p) for p in params], kind, answers))
             t.log.append((key, req))
 
     @staticmethod
@@ -271,6 +271,15 @@ def observe(mab, inv, kind):
                           None if s["warm_started_by"] is None else inv(s["warm_started_by"]))
                          for a, s in imp.arm_to_status.items()]
         obs["beta"] = [(inv(a), None if m.beta is None else [canon_val(v) for v in m.beta]) for a, m in imp.arm_to_model.items()]
+    mod = type(imp).__name__
+    if mod in ("_Radius", "_KNearest", "_LSHNearest", "_Clusters"):
+        obs["nhist"] = [0 if x is None else len(x) for x in (imp.decisions, imp.rewards, imp.contexts)]
+    if mod == "_LSHNearest":
+        obs["lsh"] = [(k, sorted((int(h), [int(i) for i in l]) for h, l in imp.table_to_hash_to_index[k].items() if len(l)))
+                      for k in sorted(imp.table_to_hash_to_index.keys())]
+    if mod == "_TreeBandit":
+        obs["leaves"] = [(inv(a), sorted((int(lf), [canon_val(v) for v in rs]) for lf, rs in d.items() if len(rs)))
+                         for a, d in imp.arm_to_leaf_to_rewards.items()]
     return obs
 
 def to_ctx(cx, container="list"):
@@ -332,17 +341,73 @@ def warm_raw(o):
                     m[i][j] = float("nan")
     return m
 
+def tree_fitted(t):
+    return hasattr(t, "tree_")
+
+def oracle_before(mab, o, inv, case):
+    """answers of the third-party libraries a query will receive (computed without changing the bandit)"""
+    orc = {k: list(v) for k, v in EMPTY_ORC.items()}
+    imp = mab._imp
+    mod = type(imp).__name__
+    if o[0] in ("pred", "pexp") and o[1] is not None and mab._is_initial_fit:
+        cx = np.asarray(o[1], dtype=float)
+        orc["sizes"] = [len(cx)]
+        try:
+            if mod == "_KNearest":
+                from scipy.spatial.distance import cdist
+                for row in cx:
+                    d = cdist(imp.contexts, row[np.newaxis, :], metric=imp.metric).reshape(-1)
+                    try:
+                        orc["knn"].append([int(i) for i in np.argpartition(d, imp.k - 1)[:imp.k]])
+                    except Exception:
+                        orc["knn"].append([])
+            elif mod == "_Clusters":
+                orc["assign"] = [int(c) for c in imp.kmeans.predict(cx)]
+            elif mod == "_TreeBandit":
+                for a in mab.arms:
+                    t = imp.arm_to_tree[a]
+                    if tree_fitted(t):
+                        for row, lf in zip(cx, t.apply(cx)):
+                            orc["leaf"].append((inv(a), [float(v) for v in row], int(lf)))
+        except Exception as e:
+            orc["error"] = repr(e)
+    return orc
+
+def oracle_after(mab, o, inv, case, orc, label):
+    imp = mab._imp
+    mod = type(imp).__name__
+    if o[0] in ("fit", "pfit") and o[3] is not None:
+        try:
+            if mod == "_Clusters" and hasattr(imp.kmeans, "labels_"):
+                orc["labels"] = [int(c) for c in imp.kmeans.labels_]
+            elif mod == "_TreeBandit":
+                cx = np.asarray(o[3], dtype=float)
+                for a in mab.arms:
+                    t = imp.arm_to_tree[a]
+                    if tree_fitted(t):
+                        rows = [r for d, r in zip(o[1], cx) if d == inv(a)]
+                        if rows:
+                            for row, lf in zip(rows, t.apply(np.asarray(rows))):
+                                orc["leaf"].append((inv(a), [float(v) for v in row], int(lf)))
+        except Exception as e:
+            orc["error"] = repr(e)
+    return orc
+
 def run_impl(case):
     with recording() as tape:
         mab, label, inv = build_mab(case)
-        trace = []
+        trace, orcs = [], []
         for o in case["ops"]:
+            orc = oracle_before(mab, o, inv, case)
             out = apply_op(mab, o, label, inv, case)
+            orc = oracle_after(mab, o, inv, case, orc, label)
             try:
                 obs = observe(mab, inv, case["lp"][0])
             except Exception as e:
                 obs = {"observe_error": repr(e)}
             trace.append((out, obs))
+            orcs.append(orc)
+    case["_orcs"] = orcs
     return trace, tape, mab
 
 # ------------------------------------------------------------------ case files for the driver
@@ -367,15 +432,47 @@ def lp_tokens(lp):
         return [k, str(fbits(lp[1])), str(fbits(lp[2])), "1" if lp[3] else "0", "1" if lp[4] else "0"]
     raise ValueError(lp)
 
+def optlist_tokens(p):
+    if p is None:
+        return ["nop"]
+    return ["p", str(len(p))] + [str(fbits(v)) for v in p]
+
 def np_tokens(npol):
     if npol is None or npol[0] == "none":
         return ["none"]
+    k = npol[0]
+    if k == "radius":
+        return ["radius", str(fbits(npol[1])), npol[2]] + optlist_tokens(npol[3]) + ["0"]
+    if k == "knearest":
+        return ["knearest", str(npol[1]), npol[2]]
+    if k == "lsh":
+        return ["lsh", str(npol[1]), str(npol[2])] + optlist_tokens(npol[3]) + ["0"]
+    if k == "clusters":
+        return ["clusters", str(npol[1])]
+    if k == "tree":
+        kf = npol[2] if len(npol) > 2 else (True, True)
+        return ["tree", "1" if kf[0] else "0", "1" if kf[1] else "0"]
     raise ValueError(npol)
 
-def op_tokens(o):
+EMPTY_ORC = {"knn": [], "labels": [], "assign": [], "leaf": [], "sizes": []}
+
+def orc_tokens(orc):
+    orc = orc or EMPTY_ORC
+    t = ["ORC", str(len(orc["knn"]))]
+    for l in orc["knn"]:
+        t += [str(len(l))] + [str(int(i)) for i in l]
+    t += [str(len(orc["labels"]))] + [str(int(i)) for i in orc["labels"]]
+    t += [str(len(orc["assign"]))] + [str(int(i)) for i in orc["assign"]]
+    t.append(str(len(orc["leaf"])))
+    for a, row, lf in orc["leaf"]:
+        t += [str(a), str(len(row))] + [str(fbits(v)) for v in row] + [str(int(lf))]
+    t += [str(len(orc["sizes"]))] + [str(int(i)) for i in orc["sizes"]]
+    return t
+
+def op_tokens(o, orc=None):
     k = o[0]
     if k in ("fit", "pfit"):
-        return [k, str(len(o[1]))] + [str(d) for d in o[1]] + [str(len(o[2]))] + [str(fbits(r)) for r in o[2]] + ctx_tokens(o[3])
+        return [k, str(len(o[1]))] + [str(d) for d in o[1]] + [str(len(o[2]))] + [str(fbits(r)) for r in o[2]] + ctx_tokens(o[3]) + orc_tokens(orc)
     if k == "add":
         return ["add", str(o[1])] + binz_tokens(o[2])
     if k == "rem":
@@ -388,20 +485,21 @@ def op_tokens(o):
         t.append(str(fbits(o[3])))
         return t
     if k in ("pred", "pexp"):
-        return [k] + ctx_tokens(o[1])
+        return [k] + ctx_tokens(o[1]) + orc_tokens(orc)
     raise ValueError(o)
 
-def case_text(cid, case, tape):
+def case_text(cid, case, tape, orcs=None):
     lines = ["CASE %s %s" % (cid, case.get("mode", "exact"))]
     lines.append("ARMS %d %s" % (len(case["arms"]), " ".join(str(a) for a in case["arms"])))
     lines.append("SEED %d" % case["seed"])
     lines.append("LP " + " ".join(lp_tokens(case["lp"])))
     lines.append("NP " + " ".join(np_tokens(case.get("np"))))
     lines.append("OPS %d" % len(case["ops"]))
-    for o in case["ops"]:
-        lines.append(" ".join(op_tokens(o)))
-    lines.append("TAPE %d" % len(tape.entries))
-    for key, (params, kind, answers) in tape.entries.items():
+    for j, o in enumerate(case["ops"]):
+        lines.append(" ".join(op_tokens(o, None if orcs is None else orcs[j])))
+    flat = [(key, e) for key, lst in tape.entries.items() for e in lst]
+    lines.append("TAPE %d" % len(flat))
+    for key, (params, kind, answers) in flat:
         if kind == "r":
             a = " ".join(str(fbits(v)) for v in answers)
         else:
@@ -483,7 +581,9 @@ def cmp_exp(impl_d, tokens, mode):
             return False
     return True
 
-def compare_case(case, trace, mres, fields=("out", "arms", "cold", "cfexp", "stats", "status")):
+ALL_FIELDS = ("out", "arms", "cold", "cfexp", "stats", "status", "beta", "nhist", "lsh", "leaves")
+
+def compare_case(case, trace, mres, fields=ALL_FIELDS):
     """returns list of disagreement descriptions (empty = agree)"""
     dis = []
     mode = case.get("mode", "exact")
@@ -547,6 +647,23 @@ def compare_case(case, trace, mres, fields=("out", "arms", "cold", "cfexp", "sta
                             dis.append("op %d: count[%d] impl=%s model=%s" % (i, a, v, mv))
                     elif not close_bits(v, mv, mode):
                         dis.append("op %d: %s[%d] impl=%s model=%s" % (i, name, a, v if v == "nan" else bits_f(v), mv if mv == "nan" else bits_f(mv)))
+        if "nhist" in obs and "nhist" in fields:
+            if [str(x) for x in obs["nhist"]] != s.get("nhist", []):
+                dis.append("op %d: stored history lengths differ: impl=%s model=%s" % (i, obs["nhist"], s.get("nhist")))
+        if "lsh" in obs and "lsh" in fields:
+            il = ["%d:%s" % (k, ";".join("%d=%s" % (h, ",".join(str(x) for x in l)) for h, l in tb)) for k, tb in obs["lsh"]]
+            if il != s.get("lsh", []):
+                dis.append("op %d: LSH tables differ: impl=%s model=%s" % (i, il[:3], s.get("lsh", [])[:3]))
+        if "leaves" in obs and "leaves" in fields:
+            ms = {}
+            for t in s.get("leaves", []):
+                a, _, rest = t.partition(":")
+                ms[int(a)] = rest
+            for a, tb in obs["leaves"]:
+                il = ";".join("%d=%s" % (lf, ",".join(str(x) for x in rs)) for lf, rs in tb)
+                if mode == "exact":
+                    if il != ms.get(a, ""):
+                        dis.append("op %d: leaf rewards of arm %d differ: impl=%s model=%s" % (i, a, il[:200], ms.get(a, "")[:200]))
         if "beta" in fields and "beta" in obs:
             ms = {int(p[0]): p[1] for p in parse_kv(s.get("beta", []))}
             for a, b in obs["beta"]:
